@@ -336,6 +336,8 @@ def run_property(mod, tier: str, seed: int, replay: str | None = None) -> int:
         return 0
 
     parts = mod.parts(tier)
+    if os.environ.get("VF_PARTS"):  # debugging aid: run selected parts only (never used by registered commands)
+        parts = [p for p in parts if p.name in os.environ["VF_PARTS"].split(",")]
     total = _Acc()
     per_part = {}
     unknown = {}  # signature -> (part, shard seed, n, msg, case)
